@@ -463,4 +463,32 @@ example : dial (C33.unparse (C33.S "http") (C33.S "2001:db8::1") 80 (C33.S "/pat
 example : dial (C33.unparse (C33.S "https") (C33.S "::1") 8443 (C33.S "/")) = some (C33.S "::1", some (C33.S "8443")) := by decide
 example : dial (C33.unparse (C33.S "http") (C33.S "example.com") 8080 []) = some (C33.S "example.com", some (C33.S "8080")) := by decide
 
+/-! ## audit round 6 (cross-audit): non-vacuity witnesses on one concrete request -/
+
+private def auditReq : Req :=
+  { method := [80, 85, 84], host := [104], prettyHost := [104], port := 80,
+    url := [104, 116, 116, 112, 58, 47, 47, 104, 47, 36, 40, 105, 100, 41],      -- http://h/$(id)
+    headers := [([88], [39, 59, 114, 109]), ([72, 111, 115, 116], [104])],       -- X: ';rm   Host: h
+    body := .text [97, 32, 98] }
+
+/-- `curl_body_plain` / `curl_command_single_command` / `argv_encodes_method_url_headers` on a request with shell
+    metacharacters in URL and header value: one command, argv = curl -H "X: ';rm" -X PUT URL -d "a b", read back by the curl
+    reader as PUT, that URL, that header, that body (the Host line is popped) -/
+example : ∃ cmd, curlCommand false none auditReq = some cmd ∧
+    run false cmd = some ⟨curlArgs false none auditReq ++ [[45, 100], [97, 32, 98]], none⟩ ∧
+    run true cmd = run false cmd ∧
+    (decodeCurl (curlArgs false none auditReq ++ [[45, 100], [97, 32, 98]])).map
+      (fun c => (c.effMethod, c.urls, c.headers, c.data)) =
+      some ([80, 85, 84], [auditReq.url], [[88, 58, 32, 39, 59, 114, 109]], some [97, 32, 98]) := by
+  refine ⟨_, rfl, ?_, ?_, ?_⟩ <;> decide +kernel
+
+/-- `httpie_command_single_command` on the same request (no body): one command whose argv is `httpieArgs` -/
+example : ∃ cmd, httpieCommand { auditReq with body := .none } = some cmd ∧
+    run true cmd = some ⟨httpieArgs { auditReq with body := .none }, none⟩ := by
+  refine ⟨_, rfl, ?_⟩; decide +kernel
+
+/-- `curl_refused_iff_binary`, and a control character makes the two shells differ (the recorded F-C48d class) -/
+example : curlCommand false none { auditReq with body := .binary } = none ∧
+    hasCtl [97, 1, 98] = true := by decide
+
 end MitmVerif.Props.C48
